@@ -393,12 +393,12 @@ func c14RunBattery(e *c14Env, index string, qs []c14Q) []string {
 // classification of mismatches into finding keys
 
 type c14Ctx struct {
-	cf          c14Cfg
-	base        int64
-	depth       uint
+	cf           c14Cfg
+	base         int64
+	depth        uint
 	bdMin, bdMax int64
-	m           *c14Model
-	shards      map[uint64]bool // shards holding values
+	m            *c14Model
+	shards       map[uint64]bool // shards holding values
 }
 
 func c14MakeCtx(e *c14Env, index string, cf c14Cfg, m *c14Model) *c14Ctx {
@@ -939,7 +939,7 @@ func c14Part1(c *vx.Check, depths []uint) {
 		}
 	}
 	c.Bound("part1_cases", len(jobs))
-	vx.ParallelFor(len(jobs), func(i int) {
+	c.ProcFor(c.NextRunLabel(), len(jobs), nil, func(_ []byte, i int, _ func([]byte)) {
 		if c.Expired() {
 			return
 		}
@@ -964,7 +964,7 @@ func c14Part1(c *vx.Check, depths []uint) {
 		if i == 0 || i == len(jobs)-1 || i == len(jobs)/2 {
 			c.Sample(fmt.Sprintf("%s (%d reads)", desc, len(qs)))
 		}
-	})
+	}, nil)
 }
 
 func c14Short(v []int64) string {
@@ -1013,7 +1013,7 @@ func c14Part2(c *vx.Check, depths []uint) {
 		jobs = append(jobs, job{cf: c14Cfg{d: d, min: -M, max: M}, how1: c14WriteImport, how2: c14WriteImport, big: true, noread: true})
 	}
 	c.Bound("part2_cases", len(jobs))
-	vx.ParallelFor(len(jobs), func(i int) {
+	c.ProcFor(c.NextRunLabel(), len(jobs), nil, func(_ []byte, i int, _ func([]byte)) {
 		if c.Expired() {
 			return
 		}
@@ -1105,7 +1105,7 @@ func c14Part2(c *vx.Check, depths []uint) {
 		c14CheckGoAPIValues(c, e, index, m, desc+" [after clear]", pre)
 		c.Distinct(desc)
 		c.Sample(desc)
-	})
+	}, nil)
 }
 
 func c14CheckGoAPIValues(c *vx.Check, e *c14Env, index string, m *c14Model, desc, pre string) {
@@ -1162,7 +1162,7 @@ func c14Part3(c *vx.Check) {
 		}
 	}
 	c.Bound("part3_cases", len(jobs))
-	vx.ParallelFor(len(jobs), func(i int) {
+	c.ProcFor(c.NextRunLabel(), len(jobs), nil, func(_ []byte, i int, _ func([]byte)) {
 		if c.Expired() {
 			return
 		}
@@ -1228,7 +1228,7 @@ func c14Part3(c *vx.Check) {
 		c14CheckGoAPI(c, e, index, cf, m, filters, desc, "")
 		c.Distinct(desc)
 		c.Sample(fmt.Sprintf("%s (%d reads)", desc, len(qs)))
-	})
+	}, nil)
 }
 
 func TestVerif_C14(t *testing.T) {
